@@ -167,8 +167,14 @@ func findFunctionCallViolation(
 	switch fun := call.Fun.(type) {
 	case *ast.Ident:
 		// Direct function call: CreateMockData()
+		// Resolve the identifier: a local variable or closure that merely shares
+		// the name of a @testonly function is not that function
+		fn, ok := ctx.pass.TypesInfo.Uses[fun].(*types.Func)
+		if !ok || fn.Pkg() == nil {
+			return nil
+		}
 		funcName := fun.Name
-		if ctx.testOnlyFuncs.Match(*ctx.currentPkgPath, funcName, funcName) {
+		if ctx.testOnlyFuncs.Match(fn.Pkg().Path(), funcName, funcName) {
 			return &TestOnlyViolation{
 				Pos:         call.Pos(),
 				TestOnlyObj: funcName,
